@@ -105,109 +105,113 @@ def run(ctx):
         kinds = FORM_KINDS if (thorough or ii % 3 == 0) else ["product", rng.choice(FORM_KINDS[1:3]), rng.choice(FORM_KINDS[2:])]
         values_seen = {}
         for kind in kinds:
-            form = make_form(inst, kind, rng)
-            ddp = build(form)
-            ctx.count("form:" + kind)
-            inp0 = {"inst": inst.to_json(), "form": kind, "pairs": form.pairs}
-            ctx.case((inst.key(), kind, tuple(form.pairs)), nontrivial=inst.nontrivial(),
-                     sample={"form": kind, "n": inst.n, "m": inst.m, "beta": inst.beta, "v*": vstar})
-            fterm = float_term(form)
+            try:
+                form = make_form(inst, kind, rng)
+                ddp = build(form)
+                ctx.count("form:" + kind)
+                inp0 = {"inst": inst.to_json(), "form": kind, "pairs": form.pairs}
+                ctx.case((inst.key(), kind, tuple(form.pairs)), nontrivial=inst.nontrivial(),
+                         sample={"form": kind, "n": inst.n, "m": inst.m, "beta": inst.beta, "v*": vstar})
+                fterm = float_term(form)
 
-            def check_opt(method, res, inp, eps=None, capped=False):
-                """oracle: optimality / eps-optimality of the returned v, sigma"""
-                v = [float(x) for x in res.v]; sg = [int(x) for x in res.sigma]
-                if any(sg[s] not in inst.feasible(s) for s in range(inst.n)):
-                    ctx.fail("solve_infeasible_policy", "%s returned an infeasible action" % method, inp, {"sigma": sg}, None)
-                    return
-                vs = o_policy_value(inst, sg)
-                if method in ("pi", "lp"):
-                    if not all(close(x, y) for x, y in zip(v, vstar)):
-                        ctx.fail("solve_value_not_optimal", "%s: returned v is not the optimal value function" % method, inp, {"v": v, "sigma": sg}, {"v*": vstar})
-                    if vs != vstar:
-                        ctx.fail("solve_policy_not_optimal", "%s: returned sigma is not an optimal policy" % method, inp, {"v": v, "sigma": sg, "v_sigma": vs}, {"v*": vstar})
-                    if unique and sg != [a[0] for a in argstar]:
-                        ctx.fail("solve_policy_not_optimal", "%s: returned sigma differs from the unique optimal policy" % method, inp, {"sigma": sg}, {"sigma*": argstar})
-                elif not capped:
-                    e = Fraction(eps)
-                    slack = Fraction(1, 10**10) * (1 + max(abs(x) for x in vstar))
-                    if max(abs(frac(x) - y) for x, y in zip(v, vstar)) >= e / 2 + slack:
-                        ctx.fail("solve_value_not_eps_optimal", "%s stopped before the cap but |v - v*| >= eps/2" % method, inp, {"v": v, "sigma": sg}, {"v*": vstar, "eps": eps})
-                    if max(y - x for x, y in zip(vs, vstar)) > e + slack:
-                        ctx.fail("solve_policy_not_eps_optimal", "%s stopped before the cap but sigma is not eps-optimal" % method, inp, {"sigma": sg, "v_sigma": vs}, {"v*": vstar, "eps": eps})
+                def check_opt(method, res, inp, eps=None, capped=False):
+                    """oracle: optimality / eps-optimality of the returned v, sigma"""
+                    v = [float(x) for x in res.v]; sg = [int(x) for x in res.sigma]
+                    if any(sg[s] not in inst.feasible(s) for s in range(inst.n)):
+                        ctx.fail("solve_infeasible_policy", "%s returned an infeasible action" % method, inp, {"sigma": sg}, None)
+                        return
+                    vs = o_policy_value(inst, sg)
+                    if method in ("pi", "lp"):
+                        if not all(close(x, y) for x, y in zip(v, vstar)):
+                            ctx.fail("solve_value_not_optimal", "%s: returned v is not the optimal value function" % method, inp, {"v": v, "sigma": sg}, {"v*": vstar})
+                        if vs != vstar:
+                            ctx.fail("solve_policy_not_optimal", "%s: returned sigma is not an optimal policy" % method, inp, {"v": v, "sigma": sg, "v_sigma": vs}, {"v*": vstar})
+                        if unique and sg != [a[0] for a in argstar]:
+                            ctx.fail("solve_policy_not_optimal", "%s: returned sigma differs from the unique optimal policy" % method, inp, {"sigma": sg}, {"sigma*": argstar})
+                    elif not capped:
+                        e = Fraction(eps)
+                        slack = Fraction(1, 10**10) * (1 + max(abs(x) for x in vstar))
+                        if max(abs(frac(x) - y) for x, y in zip(v, vstar)) >= e / 2 + slack:
+                            ctx.fail("solve_value_not_eps_optimal", "%s stopped before the cap but |v - v*| >= eps/2" % method, inp, {"v": v, "sigma": sg}, {"v*": vstar, "eps": eps})
+                        if max(y - x for x, y in zip(vs, vstar)) > e + slack:
+                            ctx.fail("solve_policy_not_eps_optimal", "%s stopped before the cap but sigma is not eps-optimal" % method, inp, {"sigma": sg, "v_sigma": vs}, {"v*": vstar, "eps": eps})
 
-            # ---------------- policy iteration (exact Q model)
-            for vinit in ([None, dyadic_v(rng, inst.n)] if (thorough or ii % 2 == 0) else [None]):
-                mi = rng.choice([None, None, 1, 2, 50])
-                res = ddp.solve(method="pi", v_init=None if vinit is None else np.array([float(x) for x in vinit]), max_iter=mi)
-                cap = ddp.max_iter if mi is None else mi
-                inp = dict(inp0, method="pi", v_init=vinit, max_iter=cap)
-                conv = res.num_iter < cap
-                ctx.count("pi:num_iter=%d" % res.num_iter if res.num_iter <= 5 else "pi:num_iter>5")
-                if not conv and cap >= 50:
-                    ctx.count("pi:ran to max_iter (float tie cycling)")
-                if conv or cap >= 50:
-                    check_opt("pi", res, inp)
-                    values_seen["pi:" + kind] = [float(x) for x in res.v]
-                pi_cases.append(tup(form.coq, qopt(vinit), natlit(cap), qlist([frac(x) for x in res.v]),
-                                    natlist([int(x) for x in res.sigma]), natlit(res.num_iter)))
-                pi_meta.append(dict(inp, impl={"v": res.v, "sigma": res.sigma, "num_iter": res.num_iter}))
+                # ---------------- policy iteration (exact Q model)
+                for vinit in ([None, dyadic_v(rng, inst.n)] if (thorough or ii % 2 == 0) else [None]):
+                    mi = rng.choice([None, None, 1, 2, 50])
+                    res = ddp.solve(method="pi", v_init=None if vinit is None else np.array([float(x) for x in vinit]), max_iter=mi)
+                    cap = ddp.max_iter if mi is None else mi
+                    inp = dict(inp0, method="pi", v_init=vinit, max_iter=cap)
+                    conv = res.num_iter < cap
+                    ctx.count("pi:num_iter=%d" % res.num_iter if res.num_iter <= 5 else "pi:num_iter>5")
+                    if not conv and cap >= 50:
+                        ctx.count("pi:ran to max_iter (float tie cycling)")
+                    if conv or cap >= 50:
+                        check_opt("pi", res, inp)
+                        values_seen["pi:" + kind] = [float(x) for x in res.v]
+                    pi_cases.append(tup(form.coq, qopt(vinit), natlit(cap), qlist([frac(x) for x in res.v]),
+                                        natlist([int(x) for x in res.sigma]), natlit(res.num_iter)))
+                    pi_meta.append(dict(inp, impl={"v": res.v, "sigma": res.sigma, "num_iter": res.num_iter}))
 
-            # ---------------- linear programming (oracle + agreement with pi; no Coq model)
-            if "sparse" not in kind:
+                # ---------------- linear programming (oracle + agreement with pi; no Coq model)
+                if "sparse" not in kind:
+                    vinit = rng.choice([None, dyadic_v(rng, inst.n)])
+                    res = ddp.solve(method="lp", v_init=None if vinit is None else np.array([float(x) for x in vinit]))
+                    inp = dict(inp0, method="lp", v_init=vinit)
+                    ctx.count("lp:solved")
+                    check_opt("lp", res, inp)
+                    values_seen["lp:" + kind] = [float(x) for x in res.v]
+                else:
+                    try:
+                        ddp.solve(method="lp")
+                        ctx.fail("lp_sparse", "lp on a sparse formulation did not raise NotImplementedError", inp0, None, None)
+                    except NotImplementedError:
+                        ctx.count("lp:sparse -> NotImplementedError")
+
+                # ---------------- value iteration (PrimFloat instance of the model; exact Q instance for short runs)
+                for rep in range(2 if (thorough or ii % 2 == 0) else 1):
+                    eps = rng.choice([None, 1e-1, 1e-3, 1e-6])
+                    mi = rng.choice([None, None, None, 3, 40])
+                    vinit = rng.choice([None, dyadic_v(rng, inst.n)])
+                    res = ddp.solve(method="vi", v_init=None if vinit is None else np.array([float(x) for x in vinit]), epsilon=eps, max_iter=mi)
+                    cap = ddp.max_iter if mi is None else mi
+                    e = ddp.epsilon if eps is None else eps
+                    inp = dict(inp0, method="vi", v_init=vinit, epsilon=e, max_iter=cap)
+                    capped = res.num_iter >= cap
+                    ctx.count("vi:capped" if capped else "vi:stopped before cap")
+                    check_opt("vi", res, inp, eps=e, capped=capped)
+                    vi_cases.append(tup(fterm, form.coq, fopt(vinit), fl(e), natlit(cap), qlist([frac(x) for x in res.v]),
+                                        natlist([int(x) for x in res.sigma]), natlit(res.num_iter)))
+                    vi_meta.append(dict(inp, impl={"v": res.v, "sigma": res.sigma, "num_iter": res.num_iter}))
+                # short exact runs: the model in Q for the implementation's cap
+                mi = rng.choice([1, 2, 4, 6])
                 vinit = rng.choice([None, dyadic_v(rng, inst.n)])
-                res = ddp.solve(method="lp", v_init=None if vinit is None else np.array([float(x) for x in vinit]))
-                inp = dict(inp0, method="lp", v_init=vinit)
-                ctx.count("lp:solved")
-                check_opt("lp", res, inp)
-                values_seen["lp:" + kind] = [float(x) for x in res.v]
-            else:
-                try:
-                    ddp.solve(method="lp")
-                    ctx.fail("lp_sparse", "lp on a sparse formulation did not raise NotImplementedError", inp0, None, None)
-                except NotImplementedError:
-                    ctx.count("lp:sparse -> NotImplementedError")
-
-            # ---------------- value iteration (PrimFloat instance of the model; exact Q instance for short runs)
-            for rep in range(2 if (thorough or ii % 2 == 0) else 1):
-                eps = rng.choice([None, 1e-1, 1e-3, 1e-6])
-                mi = rng.choice([None, None, None, 3, 40])
-                vinit = rng.choice([None, dyadic_v(rng, inst.n)])
-                res = ddp.solve(method="vi", v_init=None if vinit is None else np.array([float(x) for x in vinit]), epsilon=eps, max_iter=mi)
-                cap = ddp.max_iter if mi is None else mi
-                e = ddp.epsilon if eps is None else eps
-                inp = dict(inp0, method="vi", v_init=vinit, epsilon=e, max_iter=cap)
-                capped = res.num_iter >= cap
-                ctx.count("vi:capped" if capped else "vi:stopped before cap")
-                check_opt("vi", res, inp, eps=e, capped=capped)
-                vi_cases.append(tup(fterm, form.coq, fopt(vinit), fl(e), natlit(cap), qlist([frac(x) for x in res.v]),
-                                    natlist([int(x) for x in res.sigma]), natlit(res.num_iter)))
-                vi_meta.append(dict(inp, impl={"v": res.v, "sigma": res.sigma, "num_iter": res.num_iter}))
-            # short exact runs: the model in Q for the implementation's cap
-            mi = rng.choice([1, 2, 4, 6])
-            vinit = rng.choice([None, dyadic_v(rng, inst.n)])
-            res = ddp.solve(method="vi", v_init=None if vinit is None else np.array([float(x) for x in vinit]), epsilon=1e-9, max_iter=mi)
-            viq_cases.append(tup(form.coq, qopt(vinit), qlit(frac(1e-9)), natlit(mi), qlist([frac(x) for x in res.v]),
-                                 natlist([int(x) for x in res.sigma]), natlit(res.num_iter)))
-            viq_meta.append(dict(inp0, method="vi", v_init=vinit, epsilon=1e-9, max_iter=mi, impl={"v": res.v, "sigma": res.sigma, "num_iter": res.num_iter}))
-            ctx.count("vi:short exact run")
-
-            # ---------------- modified policy iteration (PrimFloat instance)
-            for rep in range(2 if (thorough or ii % 2 == 0) else 1):
-                eps = rng.choice([None, 1e-1, 1e-3, 1e-6])
-                mi = rng.choice([None, None, None, 2, 30])
-                k = rng.choice([0, 1, 5, 20])
-                vinit = rng.choice([None, dyadic_v(rng, inst.n)])
-                res = ddp.solve(method="mpi", v_init=None if vinit is None else np.array([float(x) for x in vinit]), epsilon=eps, max_iter=mi, k=k)
-                cap = ddp.max_iter if mi is None else mi
-                e = ddp.epsilon if eps is None else eps
-                inp = dict(inp0, method="mpi", v_init=vinit, epsilon=e, max_iter=cap, k=k)
-                capped = res.num_iter >= cap
-                ctx.count("mpi:capped" if capped else "mpi:stopped before cap")
-                ctx.count("mpi:k=%d" % k)
-                check_opt("mpi", res, inp, eps=e, capped=capped)
-                mpi_cases.append(tup(fterm, form.coq, fopt(vinit), fl(e), natlit(cap), natlit(k), qlist([frac(x) for x in res.v]),
+                res = ddp.solve(method="vi", v_init=None if vinit is None else np.array([float(x) for x in vinit]), epsilon=1e-9, max_iter=mi)
+                viq_cases.append(tup(form.coq, qopt(vinit), qlit(frac(1e-9)), natlit(mi), qlist([frac(x) for x in res.v]),
                                      natlist([int(x) for x in res.sigma]), natlit(res.num_iter)))
-                mpi_meta.append(dict(inp, impl={"v": res.v, "sigma": res.sigma, "num_iter": res.num_iter}))
+                viq_meta.append(dict(inp0, method="vi", v_init=vinit, epsilon=1e-9, max_iter=mi, impl={"v": res.v, "sigma": res.sigma, "num_iter": res.num_iter}))
+                ctx.count("vi:short exact run")
+
+                # ---------------- modified policy iteration (PrimFloat instance)
+                for rep in range(2 if (thorough or ii % 2 == 0) else 1):
+                    eps = rng.choice([None, 1e-1, 1e-3, 1e-6])
+                    mi = rng.choice([None, None, None, 2, 30])
+                    k = rng.choice([0, 1, 5, 20])
+                    vinit = rng.choice([None, dyadic_v(rng, inst.n)])
+                    res = ddp.solve(method="mpi", v_init=None if vinit is None else np.array([float(x) for x in vinit]), epsilon=eps, max_iter=mi, k=k)
+                    cap = ddp.max_iter if mi is None else mi
+                    e = ddp.epsilon if eps is None else eps
+                    inp = dict(inp0, method="mpi", v_init=vinit, epsilon=e, max_iter=cap, k=k)
+                    capped = res.num_iter >= cap
+                    ctx.count("mpi:capped" if capped else "mpi:stopped before cap")
+                    ctx.count("mpi:k=%d" % k)
+                    check_opt("mpi", res, inp, eps=e, capped=capped)
+                    mpi_cases.append(tup(fterm, form.coq, fopt(vinit), fl(e), natlit(cap), natlit(k), qlist([frac(x) for x in res.v]),
+                                         natlist([int(x) for x in res.sigma]), natlit(res.num_iter)))
+                    mpi_meta.append(dict(inp, impl={"v": res.v, "sigma": res.sigma, "num_iter": res.num_iter}))
+            except Exception as e:   # an exception or non-finite output of the implementation on an admissible instance
+                ctx.fail("implementation_raised_or_garbage", "solve raised or returned non-finite data: %r" % (e,),
+                         {"inst": inst.to_json(), "form": kind}, repr(e), None)
 
         # two formulations of the same problem yield the same optimal value
         vals_ = list(values_seen.items())
